@@ -18,7 +18,7 @@ def startDoc (known : List Ns) (knownNodes : List RNode) : Doc := { namespaces :
 structure FileRel (R : Doc → Doc → Prop) : Prop where
   inv : ∀ d0, DocInv (R d0)
   refl : ∀ known kn, R (startDoc known kn) (startDoc known kn)
-  nodes : ∀ d0 d n, R d0 d → R d0 { d with nodes := d.nodes ++ [n] }
+  nodes : ∀ d0 d n, R d0 d → n.inNs = d.current → R d0 { d with nodes := d.nodes ++ [n] }
   messages : ∀ d0 d m, R d0 d → R d0 { d with messages := d.messages ++ [m] }
   ports : ∀ d0 d m, R d0 d → R d0 { d with ports := d.ports ++ [m] }
   bindings : ∀ d0 d m, R d0 d → R d0 { d with bindings := d.bindings ++ [m] }
@@ -56,7 +56,7 @@ macro "fk " hR:ident d0:term : tactic => `(tactic| (
   (try simp only [SPred.down_pure, PostCond.mayThrow] at *)
   (try intros)
   (try show $d0 _)
-  repeat (first | assumption | trivial | exact True.intro | exact ExceptConds.entails.rfl | apply FileRel.services $hR | apply FileRel.bindings $hR | apply FileRel.ports $hR | apply FileRel.messages $hR | apply FileRel.nodes $hR | apply FileRel.imported $hR | apply Keeps.run (P := $d0) (keeps_service _ _) | apply Keeps.run (P := $d0) (keeps_binding _ _) | apply Keeps.run (P := $d0) (keeps_port _) | apply Keeps.run (P := $d0) (keeps_message (FileRel.inv $hR _) _ _ _) | apply Keeps.run (P := $d0) ((block_keeps (FileRel.inv $hR _) _).tfn _ _))))
+  repeat (first | assumption | trivial | exact True.intro | exact ExceptConds.entails.rfl | apply FileRel.services $hR | apply FileRel.bindings $hR | apply FileRel.ports $hR | apply FileRel.messages $hR | apply FileRel.nodes $hR | apply FileRel.imported $hR | apply Keeps.run (P := $d0) (keeps_service _ _) | apply Keeps.run (P := $d0) (keeps_binding _ _) | apply Keeps.run (P := $d0) (keeps_port _) | apply Keeps.run (P := $d0) (keeps_message (FileRel.inv $hR _) _ _ _) | apply Keeps.run (P := $d0) ((block_keeps (FileRel.inv $hR _) _).tfn _ _) | (apply tfn_run_inNs; assumption))))
 
 structure FileKeeps (R : Doc → Doc → Prop) (files : String → Option XFile) (fuel : Nat) : Prop where
   int : ∀ name known kn, ⦃fun st => ⌜name ∉ st.processed⌝⦄ readXmlInternal files name known kn fuel ⦃⇓? d => ⌜R (startDoc known kn) d⌝⦄
@@ -106,6 +106,34 @@ theorem file_keeps {R} (hR : FileRel R) (files : String → Option XFile) : ∀ 
       case inv1 => exact ⇓? (_, d') => ⌜R d0 d'⌝
       all_goals fk hR (R d0)
       · simp_all
+
+/-- the document a file's components are read into: the start document with the root element's declarations collected -/
+def rootDoc (tops : List XNode) (known : List Ns) (kn : List RNode) : Doc :=
+  match tops.find? (fun x => XNode.isElem x) with
+  | some root => (startDoc known kn).collectNamespaces (XNode.nss root)
+  | none => startDoc known kn
+
+/-- for a reflexive relation: what `read_xml_internal` returns is related to the document *after* the root element's
+    namespace declarations have been collected -/
+theorem int_from_root {R} (hR : FileRel R) (hrefl : ∀ d, R d d) (files : String → Option XFile) (name : String)
+    (known : List Ns) (kn : List RNode) (fuel : Nat) :
+    ⦃fun st => ⌜name ∉ st.processed⌝⦄ readXmlInternal files name known kn (fuel + 1)
+    ⦃⇓? d => ⌜∃ file tops, files name = some file ∧ file.tops = some tops ∧ R (rootDoc tops known kn) d⌝⦄ := by
+  have htop := (file_keeps hR files fuel).top
+  mvcgen [readXmlInternal, spec_throw_FM, -Spec.throw_MonadExcept]
+  case inv1 =>
+    rename_i file _ _ _ _ tops _ _ _ _ _
+    exact ⇓? (_, d) => ⌜R (rootDoc tops known kn) d⌝
+  case vc1 => simp_all
+  case vc2 =>
+    rename_i file _ _ _ _ tops _ _ _ _ _ _ _ _ _ b _ hb
+    have hb' : R (rootDoc tops known kn) b := hb
+    have := htop file (allElemsOf tops []) ‹XNode› (rootDoc tops known kn) b hb'
+    mvcgen [this]
+  case vc3 => exact hrefl _
+  case vc4 =>
+    rename_i file hf _ _ _ tops ht _ _ _ _ r _ hr
+    exact ⟨file, tops, hf, ht, hr⟩
 
 /-- **whatever `read_xml` returns is `R`-related to the empty start document** — every file table, start file, fuel -/
 theorem readXml_rel {R} (hR : FileRel R) (files : List XFile) (start : String) (fuel : Nat) (d : Doc)
